@@ -293,9 +293,8 @@ CanProduce(lv) == IF lv > 0 THEN Codecs ELSE {}
 
 \* the codecs the server would actually answer some request with
 WouldProduce(lv, adv) ==
-    {k \in Codecs \cup Tokens :
-        \E c \in Contents, cu \in Headers, st \in Headers :
-            ServeHTTP(lv, adv, c, cu, st).codec = k}
+    {ServeHTTP(lv, adv, c, cu, st).codec :
+        c \in Contents, cu \in Headers, st \in Headers} \ {""}
 
 Last == hist'[Len(hist')]
 IsServe(s) == s.a \in ServeActions
@@ -354,5 +353,5 @@ View == <<level, advertised>>
 (* Level sets for the cfgs (a cfg file cannot spell a negative number).     *)
 LevelsFull  == {-1, 0, 1, 2, 3, 4, 5, 9, 11, 12}
 LevelsQuick == {-1, 0, 1, 4, 9}
-LevelsTwo   == {0, 4}
+LevelsOne   == {4}
 =============================================================================
